@@ -75,6 +75,10 @@ def c16(ctx):
         grid_index = prog.find("histogram::grid::Grid::<A>::index")
         mc.strict(part, 2)
         mc.strict(edges_index, 2)
+        from .rules_segments import selection_helper
+        hp = selection_helper(prog, sel)
+        if hp is not None:
+            mc.strict(hp[0], hp[1])        # the recursion lives in a private helper: it rejects, the wrapper delegates on the whole view
         mc.strict(sel, 2)
         mc.bulk(bulk, 2)
         mc.bins_index(bins_index, 2)
@@ -347,7 +351,7 @@ def c09(ctx):
 
 def c10(ctx):
     prog = ctx.prog("dev")
-    roots = _roots_in(prog, "entropy::EntropyExt")
+    roots = _inlined(prog, _roots_in(prog, "entropy::EntropyExt"))
     pairs = RL.rule_r9(ctx, prog, roots)
     ctx.floor("R9", len(pairs), 4, "Zip::and sites in entropy.rs")
     RL.rule_r1(ctx, prog, scope=lambda b: "entropy::" in b.key)
